@@ -34,6 +34,7 @@ func init() {
 
 func runC13(c *Ctx) {
 	c13R1(c)
+	c13SuccessNeedsExchange(c)
 	c13R2(c)
 	c13Seek(c)
 	c13R3(c)
@@ -294,6 +295,103 @@ func c13R1(c *Ctx) {
 		}
 		c.Violation(R1, key, bad.Ret.Pos(), fmt.Sprintf("after the %s exchange a path reaches the return at %s whose error is %s without having established resp.StatusCode == %s: an unexpected status would be reported as success",
 			role, c.P.Pos(bad.Ret.Pos()), describe(bad.Val), c13Ints(allowed)))
+	}
+}
+
+// c13AlwaysExchanges: every possibly-nil error return of fn lies behind an HTTP
+// exchange: a send site of fn, or the nil-error edge (or the returned verdict)
+// of an in-module callee that always exchanges.
+func c13AlwaysExchanges(fn *ssa.Function, depth int, memo map[*ssa.Function]int) bool {
+	if v, ok := memo[fn]; ok {
+		return v == 1
+	}
+	memo[fn] = 0 // recursion guard: not (yet) known
+	ok := c13SuccessWithoutExchange(fn, depth, memo) == nil
+	if ok {
+		memo[fn] = 1
+	}
+	return ok
+}
+
+// c13SuccessWithoutExchange returns a possibly-nil error return of fn that can
+// be reached from entry without any exchange (nil if there is none).
+func c13SuccessWithoutExchange(fn *ssa.Function, depth int, memo map[*ssa.Function]int) *c13Atom {
+	if ErrResultIndex(fn.Signature) < 0 {
+		return nil
+	}
+	ct := newCut().Calls(c13SendSites(fn))
+	direct := map[ssa.Value]bool{}
+	if depth > 0 {
+		for _, ci := range Calls(fn, func(string) bool { return true }) {
+			call, isCall := ci.(*ssa.Call)
+			h := StaticCallee(ci)
+			if !isCall || h == nil || h == fn || !inModule(h) || len(h.Blocks) == 0 || ErrResultIndex(h.Signature) < 0 {
+				continue
+			}
+			if !c13AlwaysExchanges(h, depth-1, memo) {
+				continue
+			}
+			if e := ErrOf(call); e != nil {
+				al := Aliases(e)
+				nilE, _, _ := NilTests(fn, al)
+				ct.Edges(nilE...)
+				for a := range al {
+					direct[a] = true
+				}
+			}
+		}
+	}
+	return c13SuccessEscapes(fn, fn.Blocks[0], 0, ct, direct)
+}
+
+// c13SuccessNeedsExchange: the state-changing / transfer operations of the two
+// remote stores report success only after talking to the registry.
+func c13SuccessNeedsExchange(c *Ctx) {
+	const R = "C13.R1.success-needs-exchange"
+	c.Expect(R, 7)
+	ops := map[string]bool{"Mount": true, "Push": true, "PushReference": true, "Delete": true, "Tag": true}
+	memo := map[*ssa.Function]int{}
+	n := 0
+	for _, acc := range []string{"Blobs", "Manifests"} {
+		get := c.P.Fn(c13PkgRemote, "Repository."+acc)
+		if get == nil {
+			c.LostAnchor(R, "~/registry/remote.Repository."+acc)
+			continue
+		}
+		var T *types.Named
+		for _, a := range RetAtoms(get, 0) {
+			if mi, ok := a.Val.(*ssa.MakeInterface); ok {
+				if p, ok := types.Unalias(mi.X.Type()).(*types.Pointer); ok {
+					T, _ = types.Unalias(p.Elem()).(*types.Named)
+				}
+			}
+		}
+		if T == nil {
+			c.LostAnchor(R, "concrete store type returned by Repository."+acc)
+			continue
+		}
+		ms := types.NewMethodSet(types.NewPointer(T))
+		for i := 0; i < ms.Len(); i++ {
+			obj, isFn := ms.At(i).Obj().(*types.Func)
+			if !isFn || !ops[obj.Name()] {
+				continue
+			}
+			m := c.P.SSA.FuncValue(obj)
+			if m == nil || len(m.Blocks) == 0 {
+				continue
+			}
+			n++
+			bad := c13SuccessWithoutExchange(m, 4, memo)
+			ok := bad == nil
+			detail := "every success path performs at least one HTTP exchange with the registry (here or in a helper that always does)"
+			if !ok {
+				detail = fmt.Sprintf("the return at %s (error %s) reports success without any request to the registry: the result cannot reflect the registry's state", c.P.Pos(bad.Ret.Pos()), describe(bad.Val))
+			}
+			c.Check(R, FnName(m)+"|exchange-before-success", m.Pos(), ok, detail)
+		}
+	}
+	if n == 0 {
+		c.LostAnchor(R, "state-changing operations (Mount/Push/PushReference/Delete/Tag) of the remote stores")
 	}
 }
 
@@ -1049,7 +1147,22 @@ func c13R3(c *Ctx) {
 	// (d) the Accept header of reference operations is built from the same option with the same default list
 	accs := c13FuncsWhere(c.P, c13PkgRemote, func(f *ssa.Function) bool {
 		ps, rs := f.Signature.Params(), f.Signature.Results()
-		return f.Parent() == nil && f.Signature.Recv() == nil && ps.Len() == 1 && c13IsStrSlice(ps.At(0).Type()) && rs.Len() == 1 && types.Identical(rs.At(0).Type(), types.Typ[types.String])
+		if !(f.Parent() == nil && f.Signature.Recv() == nil && !f.Signature.Variadic() && ps.Len() == 1 && c13IsStrSlice(ps.At(0).Type()) && rs.Len() == 1 && types.Identical(rs.At(0).Type(), types.Typ[types.String])) {
+			return false
+		}
+		// its result is used as the value of an Accept header somewhere in the package
+		for _, g := range c.P.FuncsOfPkg(c13PkgRemote) {
+			for _, set := range CallsTo(g, "(net/http.Header).Set", "(net/http.Header).Add") {
+				if k, ok := constString(set.Common().Args[1]); ok && k == "Accept" {
+					for _, r := range Roots(set.Common().Args[2]) {
+						if call, isCall := r.(*ssa.Call); isCall && StaticCallee(call) == f {
+							return true
+						}
+					}
+				}
+			}
+		}
+		return false
 	})
 	okAcc, whyAcc := len(accs) > 0, "no Accept-header builder func([]string) string found"
 	nCalls := 0
@@ -1123,6 +1236,9 @@ func c13IsURLBuilder(g *ssa.Function) bool {
 // c13ProgForURL: the program under analysis (set by c13R4) for caller look-ups.
 var c13ProgForURL *Prog
 
+// c13FieldSeen guards the field-store recursion of c13URLSource.
+var c13FieldSeen = map[int]bool{}
+
 // c13ParamIsURLBuilder: prm is a func-typed parameter and every call of its
 // function in the package passes a URL builder (a function value, or again
 // such a parameter) for it.
@@ -1163,6 +1279,87 @@ func c13ParamIsURLBuilder(prm *ssa.Parameter) bool {
 	return callers > 0
 }
 
+// c13MapOfURLBuilders: m is a map (a local literal or a package-level table
+// initialised once) every entry of which is a URL builder function.
+func c13MapOfURLBuilders(m ssa.Value) bool {
+	var updates []*ssa.MapUpdate
+	collect := func(mk ssa.Value) {
+		if mk.Referrers() == nil {
+			return
+		}
+		for _, r := range *mk.Referrers() {
+			if mu, ok := r.(*ssa.MapUpdate); ok && mu.Map == mk {
+				updates = append(updates, mu)
+			}
+		}
+	}
+	for _, r := range Roots(m) {
+		switch u := r.(type) {
+		case *ssa.MakeMap:
+			collect(u)
+		case *ssa.UnOp: // load of a package-level table
+			g, ok := u.X.(*ssa.Global)
+			if !ok || u.Op != token.MUL {
+				return false
+			}
+			stores := 0
+			for _, fn := range []*ssa.Function{g.Pkg.Func("init")} {
+				if fn == nil {
+					continue
+				}
+				AllInstrs(fn, func(in ssa.Instruction) {
+					if st, ok := in.(*ssa.Store); ok && st.Addr == ssa.Value(g) {
+						stores++
+						for _, sr := range Roots(st.Val) {
+							if mk, ok := sr.(*ssa.MakeMap); ok {
+								collect(mk)
+							}
+						}
+					}
+				})
+			}
+			if stores != 1 || c13ProgForURL == nil {
+				return false
+			}
+			// the table is never written elsewhere
+			for _, f := range c13ProgForURL.FuncsOfPkg(c13PkgRemote) {
+				written := false
+				AllInstrs(f, func(in ssa.Instruction) {
+					switch x := in.(type) {
+					case *ssa.Store:
+						if x.Addr == ssa.Value(g) {
+							written = true
+						}
+					case *ssa.MapUpdate:
+						for _, mr := range Roots(x.Map) {
+							if ld, ok := mr.(*ssa.UnOp); ok && ld.X == ssa.Value(g) {
+								written = true
+							}
+						}
+					}
+				})
+				if written {
+					return false
+				}
+			}
+		default:
+			return false
+		}
+	}
+	if len(updates) == 0 {
+		return false
+	}
+	for _, mu := range updates {
+		for _, vr := range Roots(mu.Value) {
+			f, ok := strip(vr).(*ssa.Function)
+			if !ok || !c13IsURLBuilder(f) {
+				return false
+			}
+		}
+	}
+	return true
+}
+
 // c13URLSource classifies where a URL string comes from.
 // "" = not recognised.
 func c13URLSource(v ssa.Value) (kinds map[string]bool, params []*ssa.Parameter, unknown ssa.Value) {
@@ -1191,6 +1388,36 @@ func c13URLSource(v ssa.Value) (kinds map[string]bool, params []*ssa.Parameter, 
 					continue
 				}
 			}
+		case *ssa.UnOp:
+			// a string field of an unexported carrier struct (a paging cursor): every value ever stored into that field
+			if fa, isFA := u.X.(*ssa.FieldAddr); isFA && u.Op == token.MUL && c13ProgForURL != nil && !c13FieldSeen[fa.Field*131+len(fa.X.Type().String())] {
+				c13FieldSeen[fa.Field*131+len(fa.X.Type().String())] = true
+				okField, n := true, 0
+				for _, g := range c13ProgForURL.FuncsOfPkg(c13PkgRemote) {
+					AllInstrs(g, func(in ssa.Instruction) {
+						st, isStore := in.(*ssa.Store)
+						if !isStore {
+							return
+						}
+						f2, isFA2 := st.Addr.(*ssa.FieldAddr)
+						if !isFA2 || f2.Field != fa.Field || !types.Identical(f2.X.Type(), fa.X.Type()) {
+							return
+						}
+						n++
+						k2, p2, u2 := c13URLSource(st.Val)
+						if u2 != nil || len(p2) > 0 {
+							okField = false
+						}
+						for k := range k2 {
+							kinds[k] = true
+						}
+					})
+				}
+				delete(c13FieldSeen, fa.Field*131+len(fa.X.Type().String()))
+				if okField && n > 0 {
+					continue
+				}
+			}
 		case *ssa.Call:
 			if c13IsURLBuilder(StaticCallee(u)) {
 				kinds["builder"] = true
@@ -1204,6 +1431,9 @@ func c13URLSource(v ssa.Value) (kinds map[string]bool, params []*ssa.Parameter, 
 					n++
 					if prm, isParam := fr.(*ssa.Parameter); isParam && c13ParamIsURLBuilder(prm) {
 						continue // a func-typed parameter for which every caller passes a URL builder
+					}
+					if lk, isLookup := fr.(*ssa.Lookup); isLookup && c13MapOfURLBuilders(lk.X) {
+						continue // picked from a table all of whose entries are URL builders
 					}
 					g, ok := fr.(*ssa.Function)
 					if !ok || !c13IsURLBuilder(g) {
@@ -1303,8 +1533,8 @@ func c13R4(c *Ctx) {
 		RQ = "C13.R4.query-preserved"
 		RD = "C13.R4.upload-digest-parameter"
 	)
-	c.Expect(RU, 16)
-	c.Expect(RQ, 2) // the upload PUT and at least one page query (several page functions may share one helper)
+	c.Expect(RU, 10) // 16 requests on the pinned tree; request construction may be shared by several exchanges
+	c.Expect(RQ, 2)  // the upload PUT and at least one page query (several page functions may share one helper)
 	c.Expect(RD, 1)
 	c13ProgForURL = c.P
 	methods := map[string]bool{"GET": true, "HEAD": true, "PUT": true, "POST": true, "DELETE": true}
@@ -1868,6 +2098,10 @@ func c13Seek(c *Ctx) {
 }
 
 var c13Mutants = []Mutant{
+	{Name: "mount-same-repository-is-noop", File: "registry/remote/repository.go",
+		Old:    "\t// We also need pull access to the source repo.\n\tfromRef := s.repo.Reference",
+		New:    "\tif fromRepo == s.repo.Reference.Repository {\n\t\treturn nil\n\t}\n\t// We also need pull access to the source repo.\n\tfromRef := s.repo.Reference",
+		Expect: "C13.R1.success-needs-exchange"},
 	{Name: "selector-ignores-option", File: "registry/remote/repository.go",
 		Old: "\tif isManifest(r.ManifestMediaTypes, desc) {", New: "\tif isManifest(nil, desc) {", Expect: "C13.R3"},
 	{Name: "default-list-always-consulted", File: "registry/remote/manifest.go",
